@@ -133,6 +133,12 @@ func (w *World) Choose(key string, n int) int {
 	return c
 }
 
+// Assume fixes the answer of a decision for this world before the code asks it
+// (the decision is then neither enumerated nor listed by Asked). For atoms the
+// caller has already determined by its own enumeration, e.g. the dynamic type
+// of an operand whose class is chosen by the rule.
+func (w *World) Assume(key string, v int) { w.memo[key] = v }
+
 // Asked returns the decisions in the order they were first asked, as "key=answer".
 func (w *World) Asked() []string {
 	var out []string
